@@ -21,6 +21,7 @@ CARRIERS = {
     'elif': 'if a:\n    p\nelif b:\n    q\nelse:\n    r\n',
     'semi': 'a = 1; b = 2\nc = 3\n',
     'semi_multi': 'x = [1,\n     2]; y = 3\nz = 4\n',
+    'whileelse': 'while a:\n    pass\nelse:\n    pass\nif a + b:\n    c\n',
     'tryexc': 'try:\n    a\nexcept E as e:\n    b\nfinally:\n    c\n',
     'def': 'def f(a, b=1):\n    """d"""\n    return a\nx = f(1)\n',
     'uni': 'é = "ñ"; y = é\nif é:\n    z = "𝒳"  # ç\n',
@@ -29,7 +30,7 @@ CARRIERS = {
     'with': 'with a as b:\n    for i in c:\n        d\n    else:\n        e\n',
     'cls': '@d\nclass C(B):\n    x = 1\n\n    def m(self): pass\n',
 }
-TEXTS = ['', ' ', 'w', '\n', '    ', 'if q:', 'pass\n', ')', 'u = 0\n    ', '# k', 'é', ':\n        ']
+TEXTS = ['', ' ', 'w', '\n', '    ', 'if q:', 'pass\n', ')', 'u = 0\n    ', '# k', 'é', ':\n        ', 'with', 'while', '*', 'pass\nelse:\n    z', 'a: pass #']
 
 MAXCOL = 16
 
@@ -175,13 +176,14 @@ def _mk_rawput(key):
 FNR = ['fst.fst.FST.put_src', 'fst.fst_raw._reparse_raw', 'fst.fst_raw._reparse_raw_stmtlike', 'fst.fst_raw._reparse_raw_base', 'fst.fst_misc.clip_src_loc',
        'fst.fst.FST.find_contains_loc', 'fst.fst_core._put_src', 'fst.fst_core._offset', 'fst.fst_core._set_ast']
 CELLS = []
-_Q = {('semi', 3), ('uni2', 2), ('semi', 0), ('semi_multi', 5)}
+_Q = {('semi', 3), ('uni2', 2), ('semi', 0), ('semi_multi', 5), ('whileelse', 12), ('tryexc', 14), ('whileelse', 16)}
 for _k in CARRIERS:
     _nl = len(CARRIERS[_k].split('\n'))
     for _ti in range(len(TEXTS)):
         if (_k, _ti) not in _Q and not (TEXTS[_ti] in ('', ' ', '\n', 'if q:', 'pass\n', '# k', 'u = 0\n    ') and _k in ('ifblock', 'elif', 'semi', 'semi_multi', 'tryexc', 'uni', 'uni2', 'match')
                                         or TEXTS[_ti] in ('', '\n') and _k in ('cls', 'with', 'def')):
-            continue      # sized out of the thorough tier (all 108 carrier x text pairs were swept concretely at build time: 115,464 rectangles, see DESIGN.md)
+            if (_k, _ti) not in (('whileelse', 13), ('elif', 13), ('elif', 12), ('tryexc', 15), ('match', 16), ('def', 15)):
+                continue      # sized out of the thorough tier (all 108 carrier x text pairs were swept concretely at build time: 115,464 rectangles, see DESIGN.md)
         _parts = ['reversed'] + [(a_, b_) for a_ in range(_nl) for b_ in range(a_, _nl)]
         for _p in _parts:
             CELLS.append(Cell(f'P1.put_src[{_k},{TEXTS[_ti]!r},lines={_p if _p == "reversed" else str(_p[0]) + "-" + str(_p[1])}]', _mk_putsrc(_k, _ti, _p), 'P', FNR,
@@ -193,3 +195,72 @@ for _k in CARRIERS:
     CELLS.append(Cell(f'P2.raw_replace[{_k}]', _mk_rawput(_k), 'P', FNR + ['fst.fst_put_one._put_one'],
                       f'carrier {_k!r}; node.replace(code, raw=True) for every positioned node (symbolic ordinal) x {len(REPL)} codes (finite choice, solver-enumerated)',
                       tier='quick' if _k in ('ifblock', 'uni') else 'thorough', budget=900, per_path=60, reset=pc.reset_globals))
+
+
+# ---------------------------------------------------------------------------------------------------------------- P3
+# trees whose root is NOT a module (expression / single statement / pattern roots): the new whole source must be valid for the root's kind
+ROOTS = {
+    'list_expr': ('[a + b, c]', 'expr', ['x, y', 'x', '', ']', 'x = 1', '(z\n)', '# k']),
+    'call_expr': ('f(a, k=b)  # c', 'expr', ['x, y', '*q', '', ')', 'lambda: 0', 'u=1']),
+    'assign_stmt': ('x = (1,\n     2)', 'stmt', ['1; y = 2', 'z', '', 'if q: pass', '3\nw = 4', 'del']),
+    'seq_pattern': ('[a, *b]', 'pattern', ['x, y', '1', '', '|', '{"k": v}', 'z = 1']),
+}
+def _has_code(s_):
+    t_ = pc.tokens(s_)
+    return t_ is None or bool([t for t in t_ if t[0] != 'COMMENT'])
+
+
+_ROOT_PARSE = {'expr': lambda s_: ast.parse('(' + s_ + '\n)', mode='eval').body if _has_code(s_) else (_ for _ in ()).throw(SyntaxError('empty')),
+               'stmt': lambda s_: (lambda t: t.body[0] if len(t.body) == 1 else (_ for _ in ()).throw(SyntaxError('not one statement')))(ast.parse(s_)),
+               'pattern': lambda s_: ast.parse('match _z:\n case ' + s_ + ': pass').body[0].cases[0].pattern if '\n' not in s_ and s_.strip() else (_ for _ in ()).throw(SyntaxError('x'))}
+
+
+def _mk_rootedit(key, ti):
+    src, mode, texts = ROOTS[key]
+    lines0 = src.split('\n')
+    text = texts[ti]
+    MC = max(len(l_) for l_ in lines0) + 1
+
+    def fn(ln: int, col: int, end_ln: int, end_col: int):
+        r = ref_clip(lines0, ln, col, end_ln, end_col)
+        assume(r is not None)
+        l0, c0, l1, c1 = pc.pin(r[0], 0, len(lines0) - 1), pc.pin(r[1], 0, MC), pc.pin(r[2], 0, len(lines0) - 1), pc.pin(r[3], 0, MC)
+        with pc.untraced():
+            root = FST(src, mode)
+            pc.reset_globals()
+            dump0 = ast.dump(root.a, include_attributes=True)
+            kind0 = type(root.a).__mro__[1].__name__ if mode != 'stmt' else 'stmt'
+            s2 = '\n'.join(lines0[:l0] + [lines0[l0][:c0] + text + lines0[l1][c1:]] + lines0[l1 + 1:])
+            try:
+                t2 = _ROOT_PARSE[mode](s2)
+                ok = True
+            except (SyntaxError, ValueError, IndexError):
+                t2, ok = None, False
+        where = f'{key}:{text!r}@({l0},{c0},{l1},{c1})'
+        try:
+            root.put_src(text, ln, col, end_ln, end_col)
+        except pc.EXPECTED_RAISES + (AssertionError, AttributeError, TypeError, KeyError):
+            with pc.untraced():
+                check(root.src == src, 'root_put_src.src_changed_by_failed_reparse:' + where, (root.src,))
+                pc.realize_tree(root.a)
+                check(ast.dump(root.a, include_attributes=True) == dump0, 'root_put_src.tree_changed_by_failed_reparse:' + where)
+            cover('raise')
+            return
+        with pc.untraced():
+            got = pc.R(root.src)
+            check(got == s2, 'root_put_src.source_is_not_the_requested_splice:' + where, (got, s2))
+            if not ok:
+                fail('root_put_src.source_invalid_for_the_root_kind_accepted:' + key + ':' + repr(text), (s2, type(root.a).__name__))
+            pc.realize_tree(root.a)
+            check(ast.dump(root.a) == ast.dump(t2), 'root_put_src.tree_differs_from_parse_of_new_source:' + where, (s2, ast.dump(root.a)[:200], ast.dump(t2)[:200]))
+            pc.links_ok(root, 'root_put_src.links:' + where)
+        cover('ok')
+    return fn
+
+
+for _k in ROOTS:
+    for _ti, _tx in enumerate(ROOTS[_k][2]):
+        CELLS.append(Cell(f'P3.root_put_src[{_k},{_tx!r}]', _mk_rootedit(_k, _ti), 'P', FNR,
+                          f'root {ROOTS[_k][0]!r} parsed in mode {ROOTS[_k][1]!r} (not a module); rectangle symbolic over Z^4, replacement text {_tx!r}: the call succeeds exactly when the new whole source is valid '
+                          'for the root\'s kind (judged by CPython inside the construct that holds such a fragment), tree == that parse, otherwise nothing changes',
+                          tier='quick' if (_k, _ti) in (('list_expr', 0), ('assign_stmt', 0), ('seq_pattern', 0)) else 'thorough', budget=600, per_path=60, reset=pc.reset_globals))
